@@ -388,6 +388,10 @@ pub struct Resources {
 
     #[pdf(key="Properties")]
     pub properties: HashMap<Name, MaybeRef<Dictionary>>,
+
+    /// entries without a typed model (`Shading`, `ProcSet`, ...)
+    #[pdf(other)]
+    pub other: Dictionary,
 }
 
 
